@@ -399,7 +399,8 @@ class ISD(model.Document):
     styles.StyleProperties.TextOutline,
     styles.StyleProperties.TextShadow,
     styles.StyleProperties.TextEmphasis,
-    styles.StyleProperties.Padding
+    styles.StyleProperties.Padding,
+    styles.StyleProperties.Disparity
   )
 
   @staticmethod
@@ -862,6 +863,19 @@ class StyleProcessors:
 
   class Disparity(StyleProcessor):
     style_prop = styles.StyleProperties.Disparity
+
+    @classmethod
+    def compute(cls, parent: model.ContentElement, element: model.ContentElement):
+      element.set_style(
+        cls.style_prop,
+        _compute_length(
+          element.get_style(cls.style_prop),
+          _make_rw_length(100),
+          element.get_style(styles.StyleProperties.FontSize),
+          _make_rw_length(100 / element.get_doc().get_cell_resolution().columns),
+          _make_rw_length(100 / element.get_doc().get_px_resolution().width)
+        )
+      )
 
   class Display(StyleProcessor):
     style_prop = styles.StyleProperties.Display
